@@ -8,8 +8,8 @@ S=/root/scratch/lane$LANE
 HEAD=$(git -C /repo rev-parse HEAD)
 for p in /verif/mutants/${PAT}*.patch; do
   name=$(basename $p .patch); id=${name%%-*}
-  git -C $S/repo checkout -q -- . ; git -C $S/repo checkout -q --detach $HEAD
-  if ! git -C $S/repo apply --3way "$p" >/dev/null 2>&1 && ! git -C $S/repo apply "$p" >/dev/null 2>&1; then
+  git -C $S/repo reset -q --hard; git -C $S/repo checkout -q --detach $HEAD
+  if ! git -C $S/repo apply "$p" >/dev/null 2>&1; then
     echo "$name: DOES-NOT-APPLY (written against an earlier tree)" ; continue
   fi
   /verif/tools/scratch_env.sh lane$LANE run $id --tier quick > $S/mut.log 2>&1; rc=$?
@@ -17,4 +17,4 @@ for p in /verif/mutants/${PAT}*.patch; do
   case $rc in 1) v="CAUGHT";; 0) v="MISSED";; *) v="MACHINERY(rc=$rc)";; esac
   echo "$name: $v violations=$nv"
 done
-git -C $S/repo checkout -q -- .
+git -C $S/repo reset -q --hard
